@@ -876,8 +876,12 @@ func validate(res *runResult, out *Output, run int, stats map[string]int) {
 				if accepted[rp.ID] {
 					c.fail("C10", "refused-but-accepted", fmt.Sprintf("call %d was refused but its request was accepted", rp.ID))
 				}
-				if p.Cfg.MetaLimit == 0 || len(admitted) < int(p.Cfg.MetaLimit) {
-					c.fail("C10", "refused-below-limit", fmt.Sprintf("call %d refused although only %d of %d combinations were in use", rp.ID, len(admitted), p.Cfg.MetaLimit))
+				if p.Cfg.MetaLimit == 0 {
+					c.fail("C10", "refused-without-limit", fmt.Sprintf("call %d refused by the cardinality limit although the limit is 0 (unlimited)", rp.ID))
+				} else if len(admitted) < int(p.Cfg.MetaLimit) {
+					// the property bounds admissions and requires refusals beyond the limit; it does not forbid a refusal while
+					// slots are free (a sibling racing with the admission of its own combination): observation only
+					stats["refused_below_limit"]++
 				}
 			}
 		}
